@@ -308,7 +308,7 @@ func c20(w *core.World, r *core.Report) {
 			}
 		}
 		// K6
-		for _, c := range core.Calls(f) {
+		for _, c := range core.OwnCalls(f) {
 			call, isCall := c.(*ssa.Call)
 			if !isCall {
 				continue
